@@ -698,9 +698,13 @@ func check(prop string, seed uint64, tier string, maxRuns, workers int, base, ve
 	ev["wall_s"] = wall
 	ev["violations"] = newViolations
 	if len(lines) > 0 && len(fps) >= 2 && trouble == "" && len(harnessErrs) == 0 {
-		os.MkdirAll(filepath.Join(verif, "evidence"), 0755)
+		evdir := filepath.Join(verif, "evidence")
+		if d := os.Getenv("VERIF_EVIDENCE_DIR"); d != "" {
+			evdir = d // development: keep mutant experiments away from the committed evidence
+		}
+		os.MkdirAll(evdir, 0755)
 		b, _ := json.MarshalIndent(ev, "", " ")
-		os.WriteFile(filepath.Join(verif, "evidence", prop+".json"), b, 0644)
+		os.WriteFile(filepath.Join(evdir, prop+".json"), b, 0644)
 	}
 	fmt.Printf("%s %s: %d runs, %d distinct non-trivial, %d steps, %.1fs wall, %d new violation signature(s), %d known\n", prop, tier, len(lines), len(fps), steps, wall, newViolations, len(knownSeen))
 	if len(harnessErrs) > 0 {
